@@ -66,6 +66,8 @@ class FakeTransport(asyncio.DatagramTransport):
         s, T = (self.loop.scripts[n - 1] if n <= len(self.loop.scripts) else "none"), self.loop.TIMEOUT
         if s == "reply":
             self.loop.call_later(T / 2, self._deliver, self.reply(n, 1))
+        elif s == "empty":           # a reply datagram of length zero is a reply (its bytes are b"")
+            self.loop.call_later(T / 2, self._deliver, b"")
         elif s == "late":
             self.loop.call_later(T * 1.5, self._deliver, self.reply(n, 1))
         elif s == "two":
